@@ -102,6 +102,8 @@ def run_batch(batch, indents, numerics, out):
     menv = {'tagdef': env0['tagdef'], 'extimp': env0.get('extimp', False), 'types': types}
     text = render.render_module('M', menv)
     specs, compile_err = {}, {}
+    saved = dc.CALL_TIMEOUT
+    dc.CALL_TIMEOUT = max(saved, 300)        # compiling is not what is judged here
     for ne in numerics:
         o = dc.guarded(lambda: asn1tools.compile_string(text, 'gser', numeric_enums=ne))
         if o['st'] == 'ok':
@@ -109,6 +111,7 @@ def run_batch(batch, indents, numerics, out):
         else:
             o.pop('r', None)
             compile_err[ne] = o
+    dc.CALL_TIMEOUT = saved
     if compile_err and len(batch) > 1:
         for c in batch:                      # isolate: compile each case on its own
             run_batch([c], indents, numerics, out)
